@@ -29,6 +29,21 @@ PANIC_CALLS = {
     "rand::rng::Rng::random_range": "random_range",
     "core::cell::RefCell::borrow_mut": "borrow_mut", "core::cell::RefCell::borrow": "borrow",
     "core::num::<impl u32>::pow": None,
+    "core::num::pow": "int::pow", "core::num::abs": "int::abs", "core::num::next_power_of_two": "int::next_power_of_two",
+    # integer powers, absolute values and negations of a query-controlled value overflow (a panic in debug builds, a wrapped
+    # value in release builds); checked_* / saturating_* / wrapping_* or f64::powf are the total forms
+    "core::num::<impl i8>::pow": "int::pow", "core::num::<impl i8>::abs": "int::abs", "core::num::<impl i8>::next_power_of_two": "int::next_power_of_two",
+    "core::num::<impl i16>::pow": "int::pow", "core::num::<impl i16>::abs": "int::abs", "core::num::<impl i16>::next_power_of_two": "int::next_power_of_two",
+    "core::num::<impl i32>::pow": "int::pow", "core::num::<impl i32>::abs": "int::abs", "core::num::<impl i32>::next_power_of_two": "int::next_power_of_two",
+    "core::num::<impl i64>::pow": "int::pow", "core::num::<impl i64>::abs": "int::abs", "core::num::<impl i64>::next_power_of_two": "int::next_power_of_two",
+    "core::num::<impl i128>::pow": "int::pow", "core::num::<impl i128>::abs": "int::abs", "core::num::<impl i128>::next_power_of_two": "int::next_power_of_two",
+    "core::num::<impl isize>::pow": "int::pow", "core::num::<impl isize>::abs": "int::abs", "core::num::<impl isize>::next_power_of_two": "int::next_power_of_two",
+    "core::num::<impl u8>::pow": "int::pow", "core::num::<impl u8>::abs": "int::abs", "core::num::<impl u8>::next_power_of_two": "int::next_power_of_two",
+    "core::num::<impl u16>::pow": "int::pow", "core::num::<impl u16>::abs": "int::abs", "core::num::<impl u16>::next_power_of_two": "int::next_power_of_two",
+    "core::num::<impl u64>::pow": "int::pow", "core::num::<impl u64>::abs": "int::abs", "core::num::<impl u64>::next_power_of_two": "int::next_power_of_two",
+    "core::num::<impl u128>::pow": "int::pow", "core::num::<impl u128>::abs": "int::abs", "core::num::<impl u128>::next_power_of_two": "int::next_power_of_two",
+    "core::num::<impl usize>::pow": "int::pow", "core::num::<impl usize>::abs": "int::abs", "core::num::<impl usize>::next_power_of_two": "int::next_power_of_two",
+
     # documented "Panics" sections of further std APIs reachable from query-controlled values
     "core::time::Duration::from_secs_f64": "Duration::from_secs_f64", "core::time::Duration::from_secs_f32": "Duration::from_secs_f32",
     "core::time::Duration::mul_f64": "Duration::mul_f64", "core::time::Duration::mul_f32": "Duration::mul_f32",
